@@ -1022,7 +1022,6 @@ def oracleC10 (p : Parsed) (ex : Expect) (fs : List (String × String)) : Option
           match fakeWorld.decompress z wire with
           | some d => d.length > L
           | none => false
-    if getOver && code != some 8 then some "a Connect GET message that inflates above the limit was not rejected with resource_exhausted" else
     -- response side: a response message with an oversized representation on a path that buffers it
     let writes := p.sc.script.foldl (fun acc op => match op with | .write b => acc ++ b | _ => acc) ([] : Bytes)
     let respComp : Option Bytes := p.sc.script.foldl (fun acc op => match op with
@@ -1062,6 +1061,8 @@ def oracleC10 (p : Parsed) (ex : Expect) (fs : List (String × String)) : Option
     | some why => some why
     | none =>
     if !ex.readsAll then none else
+    -- (the message of a GET request is decoded - and inflated - when the handler first reads the body)
+    if getOver && code != some 8 then some "a Connect GET message that inflates above the limit was not rejected with resource_exhausted although the handler read the request" else
     let pl := o.plan fakeWorld
     let buffering := !(pl.sameReqCompression && pl.sameReqCodec && !pl.mustDecode)
     match o.clientEnveloper with
